@@ -381,3 +381,511 @@ def test_text_good():
     expect('a', check_modules(m, big, 2, 0, B, W) == [], 'check_modules scale 2')
     expect('a', check_grid(m, [[0, 0, 0, 0], [0, 1, 0, 0], [0, 0, 1, 0], [0, 0, 0, 0]], 1) == [], 'check_grid ok')
     expect('a', check_grid(m, [[1, 0], [0, 1]], 0) == [], 'check_grid border 0')
+
+
+# ----------------------------------------------------------------------------
+# (b) corrupted files
+# ----------------------------------------------------------------------------
+
+def has(problems, *words):
+    return any(all(w.lower() in p.lower() for w in words) for p in problems)
+
+
+def test_png_bad():
+    bits = [1, 0, 1, 0, 0, 1, 1, 0, 0, 1]
+    rows = [bits, [1 - b for b in bits]]
+    good = make_png(10, 2, 1, 0, rows)
+    stream = filtered(rows, 1, 1, (0,))
+    z = zlib.compress(stream)
+    assert read_png(good).problems == []
+
+    def bad(label, data, *words):
+        try:
+            r = read_png(data)
+        except Exception as ex:       # must never raise
+            expect('b', False, 'PNG %s: raised %r' % (label, ex))
+            return None
+        expect('b', r.problems != [] and (not words or has(r.problems, *words)),
+               'PNG %s: expected a problem mentioning %r, got %r' % (label, words, r.problems))
+        return r
+
+    # flipped CRC byte of every single chunk in turn
+    pos = 8
+    while pos < len(good):
+        length, = struct.unpack('>I', good[pos:pos + 4])
+        name = good[pos + 4:pos + 8].decode()
+        crc_at = pos + 8 + length
+        for k in range(4):
+            d = bytearray(good)
+            d[crc_at + k] ^= 0x01
+            bad('CRC byte %d of %s flipped' % (k, name), bytes(d), 'CRC', name)
+        pos = crc_at + 4
+    d = bytearray(good)
+    d[8 + 8 + 3] ^= 0x40          # flip a data bit inside IHDR (width), CRC unchanged
+    bad('IHDR data bit flipped', bytes(d), 'CRC', 'IHDR')
+    d = bytearray(good)
+    d[good.index(b'IDAT') + 6] ^= 0x10
+    bad('IDAT data bit flipped', bytes(d), 'CRC', 'IDAT')
+    # truncated IDAT (valid CRC over the shortened data)
+    for cut in (1, 4, 5, len(z) // 2):
+        bad('IDAT truncated by %d' % cut, SIG + ihdr(10, 2, 1, 0) + chunk(b'IDAT', z[:-cut]) + chunk(b'IEND', b''))
+    r = bad('IDAT truncated (adler)', SIG + ihdr(10, 2, 1, 0) + chunk(b'IDAT', z[:-2]) + chunk(b'IEND', b''), 'zlib')
+    bad('file truncated inside IDAT', good[:good.index(b'IDAT') + 10], 'truncated')
+    bad('file truncated: no IEND', good[:-12], 'IEND')
+    bad('empty IDAT', SIG + ihdr(10, 2, 1, 0) + chunk(b'IDAT', b'') + chunk(b'IEND', b''))
+    bad('no IDAT', SIG + ihdr(10, 2, 1, 0) + chunk(b'IEND', b''), 'no IDAT')
+    # wrong IHDR length (CRC valid)
+    body = struct.pack('>IIBBBBB', 10, 2, 1, 0, 0, 0, 0)
+    bad('IHDR 14 bytes', SIG + chunk(b'IHDR', body + b'\0') + chunk(b'IDAT', z) + chunk(b'IEND', b''), 'IHDR', '13')
+    bad('IHDR 12 bytes', SIG + chunk(b'IHDR', body[:-1]) + chunk(b'IDAT', z) + chunk(b'IEND', b''), 'IHDR', '13')
+    bad('IHDR not first', SIG + chunk(b'tEXt', b'a\0b') + ihdr(10, 2, 1, 0) + chunk(b'IDAT', z) + chunk(b'IEND', b''),
+        'first chunk')
+    bad('two IHDR', SIG + ihdr(10, 2, 1, 0) + ihdr(10, 2, 1, 0) + chunk(b'IDAT', z) + chunk(b'IEND', b''), 'IHDR', 'times')
+    # signature
+    bad('signature', b'\x89PNG\n\n\x1a\n' + good[8:], 'signature')
+    bad('empty', b'')
+    bad('signature only', SIG)
+    bad('not a png', b'P4\n1 1\n\x00')
+    # illegal colour type / bit depth combinations
+    for ctype, depth in ((0, 3), (2, 4), (3, 16), (4, 4), (6, 2), (1, 8), (5, 8), (7, 8), (0, 0), (0, 32)):
+        bad('ctype %d depth %d' % (ctype, depth), SIG + ihdr(10, 2, depth, ctype) + chunk(b'IDAT', z) + chunk(b'IEND', b''),
+            'IHDR')
+    bad('compression method', SIG + chunk(b'IHDR', struct.pack('>IIBBBBB', 10, 2, 1, 0, 1, 0, 0)) + chunk(b'IDAT', z)
+        + chunk(b'IEND', b''), 'compression')
+    bad('filter method', SIG + chunk(b'IHDR', struct.pack('>IIBBBBB', 10, 2, 1, 0, 0, 1, 0)) + chunk(b'IDAT', z)
+        + chunk(b'IEND', b''), 'filter method')
+    bad('interlace method', SIG + chunk(b'IHDR', struct.pack('>IIBBBBB', 10, 2, 1, 0, 0, 0, 2)) + chunk(b'IDAT', z)
+        + chunk(b'IEND', b''), 'interlace')
+    bad('zero width', SIG + ihdr(0, 2, 1, 0) + chunk(b'IDAT', z) + chunk(b'IEND', b''), 'zero')
+    # declared size != data
+    bad('height 3 but 2 rows of data', SIG + ihdr(10, 3, 1, 0) + chunk(b'IDAT', z) + chunk(b'IEND', b''), 'expected exactly')
+    bad('height 1 but 2 rows of data', SIG + ihdr(10, 1, 1, 0) + chunk(b'IDAT', z) + chunk(b'IEND', b''), 'expected exactly')
+    bad('width 17 (3 bytes per row) but 2 bytes', SIG + ihdr(17, 2, 1, 0) + chunk(b'IDAT', z) + chunk(b'IEND', b''),
+        'expected exactly')
+    bad('one extra byte', make_png(10, 2, 1, 0, None, stream=stream + b'\0'), 'expected exactly')
+    bad('one byte missing', make_png(10, 2, 1, 0, None, stream=stream[:-1]), 'expected exactly')
+    r = read_png(SIG + ihdr(16, 2, 1, 0) + chunk(b'IDAT', z) + chunk(b'IEND', b''))
+    expect('b', r.problems == [], 'width 16 needs the same 2 bytes per row as width 10: %r' % r.problems)
+    # filter type 5
+    bad('filter type 5', make_png(10, 2, 1, 0, rows, filters=(0, 5)), 'filter type 5')
+    # garbage after the zlib stream / bad zlib header / bad adler
+    bad('garbage after zlib stream', SIG + ihdr(10, 2, 1, 0) + chunk(b'IDAT', z + b'xx') + chunk(b'IEND', b''), 'garbage')
+    zz = bytearray(z)
+    zz[-1] ^= 0xff
+    bad('adler32 wrong', SIG + ihdr(10, 2, 1, 0) + chunk(b'IDAT', bytes(zz)) + chunk(b'IEND', b''), 'zlib')
+    bad('not deflate', SIG + ihdr(10, 2, 1, 0) + chunk(b'IDAT', b'\x79\x9c' + z[2:]) + chunk(b'IEND', b''), 'zlib')
+    # IEND
+    bad('IEND not empty', good[:-12] + chunk(b'IEND', b'x'), 'IEND', 'empty')
+    bad('data after IEND', good + chunk(b'tEXt', b'a\0b'), 'IEND')
+    bad('junk after IEND', good + b'junk')
+    bad('IDAT not consecutive', SIG + ihdr(10, 2, 1, 0) + chunk(b'IDAT', z[:4]) + chunk(b'tEXt', b'a\0b')
+        + chunk(b'IDAT', z[4:]) + chunk(b'IEND', b''), 'consecutive')
+    bad('unknown critical chunk', SIG + ihdr(10, 2, 1, 0) + chunk(b'ABCD', b'') + chunk(b'IDAT', z) + chunk(b'IEND', b''),
+        'critical')
+    bad('chunk type not letters', SIG + ihdr(10, 2, 1, 0) + chunk(b'te1t', b'') + chunk(b'IDAT', z) + chunk(b'IEND', b''),
+        'letters')
+    bad('pHYs after IDAT', SIG + ihdr(10, 2, 1, 0) + chunk(b'IDAT', z) + chunk(b'pHYs', struct.pack('>IIB', 1, 1, 1))
+        + chunk(b'IEND', b''), 'pHYs')
+    bad('pHYs length', make_png(10, 2, 1, 0, rows, extra=[chunk(b'pHYs', b'\0' * 8)]), 'pHYs')
+    bad('pHYs unit', make_png(10, 2, 1, 0, rows, extra=[chunk(b'pHYs', struct.pack('>IIB', 1, 1, 2))]), 'pHYs')
+    # palette
+    pal3 = chunk(b'PLTE', bytes([0, 0, 0, 255, 255, 255, 255, 0, 0]))
+    prow = [[0, 1, 2], [2, 1, 0]]
+    r = read_png(make_png(3, 2, 2, 3, prow, extra=[pal3]))
+    expect('b', r.problems == [] and r.pixels[0][2] == (255, 0, 0, 255), 'palette baseline: %r' % r.problems)
+    bad('palette index out of range', make_png(3, 2, 2, 3, [[0, 1, 3], [2, 1, 0]], extra=[pal3]), 'index 3', 'out of range')
+    bad('palette index out of range (8 bit)', make_png(3, 2, 8, 3, [[0, 1, 200], [2, 1, 0]], extra=[pal3]), 'out of range')
+    bad('PLTE missing', make_png(3, 2, 2, 3, prow), 'PLTE')
+    bad('PLTE length 8', make_png(3, 2, 2, 3, prow, extra=[chunk(b'PLTE', bytes(8))]), 'multiple of 3')
+    bad('PLTE empty', make_png(3, 2, 2, 3, prow, extra=[chunk(b'PLTE', b'')]), 'PLTE')
+    bad('PLTE too long for depth', make_png(3, 2, 1, 3, [[0, 1, 0], [1, 1, 0]], extra=[pal3]), 'PLTE', 'more than')
+    bad('PLTE after IDAT', SIG + ihdr(3, 2, 2, 3) + chunk(b'IDAT', zlib.compress(filtered(prow, 2, 1, (0,)))) + pal3
+        + chunk(b'IEND', b''), 'PLTE after IDAT')
+    bad('PLTE in greyscale', make_png(10, 2, 1, 0, rows, extra=[pal3]), 'PLTE')
+    bad('tRNS longer than palette', make_png(3, 2, 2, 3, prow, extra=[pal3, chunk(b'tRNS', bytes(4))]), 'tRNS')
+    bad('tRNS before PLTE', make_png(3, 2, 2, 3, prow, extra=[chunk(b'tRNS', bytes(1)), pal3]), 'tRNS', 'follow')
+    bad('tRNS length for greyscale', make_png(10, 2, 1, 0, rows, extra=[chunk(b'tRNS', bytes(1))]), 'tRNS')
+    bad('tRNS value exceeds depth', make_png(10, 2, 1, 0, rows, extra=[chunk(b'tRNS', struct.pack('>H', 2))]), 'tRNS')
+    bad('tRNS length for truecolour', make_png(3, 2, 8, 2, [[1] * 9] * 2, extra=[chunk(b'tRNS', bytes(2))]), 'tRNS')
+    bad('tRNS with alpha colour type', make_png(3, 2, 8, 4, [[1] * 6] * 2, extra=[chunk(b'tRNS', bytes(2))]), 'tRNS')
+
+
+def test_other_bad():
+    def bad(reader, label, data, *words):
+        try:
+            r = reader(data)
+        except Exception as ex:
+            expect('b', False, '%s %s: raised %r' % (reader.__name__, label, ex))
+            return
+        expect('b', r.problems != [] and (not words or has(r.problems, *words)),
+               '%s %s: expected a problem mentioning %r, got %r' % (reader.__name__, label, words, r.problems))
+
+    bad(read_pbm, 'magic', b'P5\n3 2\n\0\0', 'magic')
+    bad(read_pbm, 'P4 short', b'P4\n3 2\n\xa0', 'expected exactly 2')
+    bad(read_pbm, 'P4 long', b'P4\n3 2\n\xa0\x60\x00', 'expected exactly 2')
+    bad(read_pbm, 'P4 size needs 2 bytes per row', b'P4\n9 2\n\xa0\x60', 'expected exactly 4')
+    bad(read_pbm, 'P4 no height', b'P4\n3\n', 'height')
+    bad(read_pbm, 'P4 junk width', b'P4\nx 2\n\xa0\x60', 'width')
+    bad(read_pbm, 'P4 zero', b'P4\n0 2\n', 'zero')
+    bad(read_pbm, 'P1 short', b'P1\n3 2\n10101', 'expected exactly 6')
+    bad(read_pbm, 'P1 long', b'P1\n3 2\n1010101', 'expected exactly 6')
+    bad(read_pbm, 'P1 illegal char', b'P1\n3 2\n10x010', 'illegal')
+    bad(read_pbm, 'empty', b'')
+    bad(read_ppm, 'magic', b'P3\n1 1 255\n0 0 0', 'magic')
+    bad(read_ppm, 'short', b'P6\n3 2 255\n' + bytes(17), 'expected exactly 18')
+    bad(read_ppm, 'long', b'P6\n3 2 255\n' + bytes(19), 'expected exactly 18')
+    bad(read_ppm, 'maxval 0', b'P6\n1 1 0\n' + bytes(3), 'maxval')
+    bad(read_ppm, 'maxval 65536', b'P6\n1 1 65536\n' + bytes(6), 'maxval')
+    bad(read_ppm, 'maxval 1000', b'P6\n1 1 1000\n' + bytes(6), 'unsupported')
+    bad(read_ppm, 'sample > maxval', b'P6\n1 1 15\n' + bytes([1, 16, 2]), 'exceeds maxval')
+    bad(read_ppm, 'no maxval', b'P6\n1 1\n', 'maxval')
+    hd = b'P7\nWIDTH 3\nHEIGHT 2\nDEPTH 1\nMAXVAL 1\nTUPLTYPE BLACKANDWHITE\nENDHDR\n'
+    assert read_pam(hd + bytes(6)).problems == []
+    bad(read_pam, 'short', hd + bytes(5), 'expected exactly 6')
+    bad(read_pam, 'long', hd + bytes(7), 'expected exactly 6')
+    bad(read_pam, 'sample > maxval', hd + bytes([0, 1, 2, 0, 0, 0]), 'exceeds MAXVAL')
+    bad(read_pam, 'no ENDHDR', hd.replace(b'ENDHDR\n', b'') + bytes(6), 'ENDHDR')
+    bad(read_pam, 'no WIDTH', hd.replace(b'WIDTH 3\n', b'') + bytes(6), 'WIDTH missing')
+    bad(read_pam, 'WIDTH twice', hd.replace(b'WIDTH 3\n', b'WIDTH 3\nWIDTH 3\n') + bytes(6), 'more than once')
+    bad(read_pam, 'depth/tupltype', hd.replace(b'DEPTH 1', b'DEPTH 2') + bytes(12), 'requires DEPTH 1')
+    bad(read_pam, 'BW maxval', hd.replace(b'MAXVAL 1', b'MAXVAL 255') + bytes(6), 'requires MAXVAL 1')
+    bad(read_pam, 'unknown tupltype', hd.replace(b'BLACKANDWHITE', b'CMYK') + bytes(6), 'unsupported')
+    bad(read_pam, 'no tupltype', hd.replace(b'TUPLTYPE BLACKANDWHITE\n', b'') + bytes(6), 'TUPLTYPE missing')
+    bad(read_pam, 'unknown header line', hd.replace(b'ENDHDR', b'FOO 1\nENDHDR') + bytes(6), 'unknown header')
+    bad(read_pam, 'magic', b'P6\n', 'P7')
+    bad(read_pam, 'bad number', hd.replace(b'HEIGHT 2', b'HEIGHT two') + bytes(6), 'HEIGHT')
+    xbm = '#define t_width 10\n#define t_height 2\nstatic unsigned char t_bits[] = {\n  0x05, 0x02,\n  0xf0, 0x01 };\n'
+    assert read_xbm(xbm).problems == []
+    bad(read_xbm, 'one byte missing', xbm.replace(', 0x01', ''), 'expected exactly 4')
+    bad(read_xbm, 'one byte too many', xbm.replace('0x01', '0x01, 0x00'), 'expected exactly 4')
+    bad(read_xbm, 'width needs 1 byte per row', xbm.replace('t_width 10', 't_width 8'), 'expected exactly 2')
+    bad(read_xbm, 'no height', xbm.replace('#define t_height 2\n', ''), 'height missing')
+    bad(read_xbm, 'name mismatch', xbm.replace('t_bits', 'u_bits'), 'inconsistent')
+    bad(read_xbm, 'value too large', xbm.replace('0xf0', '0x1f0'), 'does not fit')
+    bad(read_xbm, 'not a literal', xbm.replace('0xf0', 'xf0'), 'integer literal')
+    bad(read_xbm, 'no array', '#define t_width 10\n#define t_height 2\n', 'array declaration')
+    bad(read_xbm, 'X10 short', xbm.replace('unsigned char', 'short'), 'unsupported')
+    bad(read_xbm, 'junk', xbm + 'int x;', 'unexpected text')
+    bad(read_xbm, 'empty', '')
+    xpm = '/* XPM */\nstatic char *img[] = {\n"3 2 2 1",\n"  c None",\n"X c #0a141e",\n"X  ",\n" X "\n};\n'
+    assert read_xpm(xpm).problems == []
+    bad(read_xpm, 'no XPM comment', xpm.replace('/* XPM */\n', ''), '/* XPM */')
+    bad(read_xpm, 'short row', xpm.replace('"X  "', '"X "'), 'expected exactly 3')
+    bad(read_xpm, 'long row', xpm.replace('"X  "', '"X   "'), 'expected exactly 3')
+    bad(read_xpm, 'undefined char', xpm.replace('" X "', '" Y "'), 'not a defined colour')
+    bad(read_xpm, 'missing row', xpm.replace(',\n" X "', ''), 'pixel lines')
+    bad(read_xpm, 'extra row', xpm.replace('" X "', '" X ",\n"   "'), 'pixel lines')
+    bad(read_xpm, 'declared width', xpm.replace('"3 2 2 1"', '"4 2 2 1"'), 'expected exactly 4')
+    bad(read_xpm, 'bad colour', xpm.replace('#0a141e', '#0a141'), 'unsupported')
+    bad(read_xpm, 'unknown colour name', xpm.replace('#0a141e', 'PapayaWhip'), 'unsupported')
+    bad(read_xpm, 'no colour key', xpm.replace('X c #0a141e', 'X #0a141e'), 'colour key')
+    bad(read_xpm, 'duplicate colour', xpm.replace('"X c #0a141e"', '"  c #0a141e"'), 'defined twice')
+    bad(read_xpm, 'values', xpm.replace('"3 2 2 1"', '"3 2 2"'), 'values')
+    bad(read_xpm, 'missing comma', xpm.replace('"X  ",', '"X  "'), 'comma')
+    bad(read_xpm, 'not closed', xpm.replace('};', ''), 'closed')
+    bad(read_xpm, 'declaration', xpm.replace('static char *img[]', 'int img[]'), 'declaration')
+    bad(read_xpm, 'unterminated string', xpm.replace('" X "', '" X '), 'unterminated')
+    bad(read_xpm, 'empty', '')
+    # read_txt must raise ValueError
+    for label, t in (('other char', '01\n0x\n'), ('ragged', '01\n0\n'), ('ragged long', '01\n011\n'),
+                     ('blank line', '01\n\n10\n'), ('space', '0 1\n')):
+        try:
+            read_txt(t)
+            expect('b', False, 'read_txt %s: no ValueError' % label)
+        except ValueError:
+            expect('b', True, '')
+    # terminal readers: unknown things -> -1 cells -> check_grid complains
+    E = '\x1b'
+    m = [[1]]
+    ok = E + '[49m  ' + E + '[0m\n'
+    expect('b', check_grid(m, read_ansi_terminal(ok), 0) == [], 'ansi 1x1 baseline')
+    for label, t in (('x instead of space', E + '[49mxx' + E + '[0m\n'), ('odd spaces', E + '[49m   ' + E + '[0m\n'),
+                     ('one space', E + '[49m ' + E + '[0m\n'), ('colour 40', E + '[40m  ' + E + '[0m\n'),
+                     ('mixed pair', E + '[49m ' + E + '[7m ' + E + '[0m\n'), ('light', E + '[7m  ' + E + '[0m\n'),
+                     ('cursor move', E + '[2C' + E + '[49m  ' + E + '[0m\n'), ('two rows', ok + ok),
+                     ('blank line', ok + '\n'), ('stray ESC', E + '  \n'), ('empty', '')):
+        try:
+            g = read_ansi_terminal(t)
+            expect('b', check_grid(m, g, 0) != [], 'ansi %s: accepted (%r)' % (label, g))
+        except Exception as ex:
+            expect('b', False, 'ansi %s: raised %r' % (label, ex))
+    expect('b', check_grid(m, read_compact_terminal(' \n'), 0) == [], 'compact 1x1 baseline')
+    for label, t in (('light', '▀\n'), ('letter', 'x\n'), ('left half block', '▌\n'), ('colour', E + '[31m \n'),
+                     ('two columns', '  \n'), ('painted padding', '▄\n'), ('empty', '')):
+        try:
+            g = read_compact_terminal(t)
+            expect('b', check_grid(m, g, 0) != [], 'compact %s: accepted (%r)' % (label, g))
+        except Exception as ex:
+            expect('b', False, 'compact %s: raised %r' % (label, ex))
+    # check_modules must notice every kind of difference
+    m = [[1, 0], [0, 1]]
+    pix = [[W] * 4, [W, B, W, W], [W, W, B, W], [W] * 4]
+
+    def variant(x, y, px):
+        p = [list(row) for row in pix]
+        p[y][x] = px
+        return Raster(4, 4, p)
+    expect('b', check_modules(m, variant(0, 0, B), 1, 1, B, W) != [], 'quiet zone pixel dark not noticed')
+    expect('b', check_modules(m, variant(1, 1, W), 1, 1, B, W) != [], 'dark module light not noticed')
+    expect('b', check_modules(m, variant(2, 1, B), 1, 1, B, W) != [], 'light module dark not noticed')
+    expect('b', check_modules(m, variant(1, 1, (0, 0, 0, 254)), 1, 1, B, W) != [], 'alpha difference not noticed')
+    expect('b', check_modules(m, variant(1, 1, (0, 0, 1, 255)), 1, 1, B, W) != [], 'blue difference not noticed')
+    expect('b', check_modules(m, variant(0, 0, (255, 255, 255, 1)), 1, 1, B, None) != [], 'non transparent light not noticed')
+    expect('b', check_modules(m, Raster(4, 4, pix), 1, 0, B, W) != [], 'wrong border not noticed')
+    expect('b', check_modules(m, Raster(4, 4, pix), 2, 0, B, W) != [], 'wrong scale not noticed')
+    expect('b', check_modules(m, Raster(4, 4, pix), 1, 1, W, B) != [], 'swapped colours not noticed')
+    expect('b', check_modules(m, Raster(4, 3, pix[:3]), 1, 1, B, W) != [], 'wrong height not noticed')
+    expect('b', check_modules(m, Raster(4, 4, pix, problems=['x']), 1, 1, B, W) != [], 'raster problems not propagated')
+    expect('b', check_modules([[0, 1], [1, 0]], Raster(4, 4, pix), 1, 1, B, W) != [], 'other matrix not noticed')
+    expect('b', check_grid(m, [[1, 0], [0, 0]], 0) != [], 'grid difference not noticed')
+    expect('b', check_grid(m, [[1, 0], [0, -1]], 0) != [], 'grid -1 not noticed')
+    expect('b', check_grid(m, [[1, 0], [0]], 0) != [], 'ragged grid not noticed')
+    expect('b', check_grid(m, [[1, 0], [0, 1]], 1) != [], 'grid border not noticed')
+
+
+def test_fuzz_never_raises():
+    """Random mutations / truncations of valid files: readers must not raise."""
+    rnd = random.Random(20261002)
+    bits = [1, 0, 1, 0, 0, 1, 1, 0, 0, 1]
+    rows = [bits, [1 - b for b in bits]]
+    pal3 = chunk(b'PLTE', bytes([0, 0, 0, 255, 255, 255, 255, 0, 0]))
+    seeds = [
+        (read_png, make_png(10, 2, 1, 0, rows, filters=(4, 3))),
+        (read_png, make_png(3, 2, 2, 3, [[0, 1, 2], [2, 1, 0]], extra=[pal3, chunk(b'tRNS', b'\x00')])),
+        (read_png, make_png(3, 2, 8, 6, [[1] * 12] * 2, filters=(1, 4))),
+        (read_pbm, b'P4\n#c\n10 2\n\x0a\x40\xff\x80'), (read_pbm, b'P1\n3 2\n101\n010\n'),
+        (read_ppm, b'P6 #c\n2 1 255\n\x01\x02\x03\x04\x05\x06'),
+        (read_pam, b'P7\nWIDTH 2\nHEIGHT 1\nDEPTH 4\nMAXVAL 255\nTUPLTYPE RGB_ALPHA\nENDHDR\n' + bytes(8)),
+        (read_xbm, b'#define t_width 10\n#define t_height 2\nstatic unsigned char t_bits[] = {\n 0x05, 0x02,\n 0xf0, 0x01 };\n'),
+        (read_xpm, b'/* XPM */\nstatic char *img[] = {\n"3 2 2 1",\n"  c None",\n"X c #0a141e",\n"X  ",\n" X "\n};\n'),
+    ]
+    runs = 0
+    for reader, data in seeds:
+        for _ in range(400):
+            d = bytearray(data)
+            op = rnd.randrange(4)
+            if op == 0 and d:
+                for _k in range(rnd.randrange(1, 4)):
+                    d[rnd.randrange(len(d))] = rnd.randrange(256)
+            elif op == 1:
+                d = d[:rnd.randrange(len(d) + 1)]
+            elif op == 2 and d:
+                i = rnd.randrange(len(d))
+                del d[i:i + rnd.randrange(1, 5)]
+            else:
+                i = rnd.randrange(len(d) + 1)
+                d[i:i] = bytes(rnd.randrange(256) for _k in range(rnd.randrange(1, 5)))
+            try:
+                r = reader(bytes(d))
+                ok = isinstance(r.problems, list) and len(r.pixels) in (0, r.height)
+                runs += 1
+                if not ok:
+                    expect('b', False, 'fuzz %s: inconsistent raster for %r' % (reader.__name__, bytes(d)))
+            except Exception as ex:
+                expect('b', False, 'fuzz %s raised %r on %r' % (reader.__name__, ex, bytes(d)))
+        for t in ('', 'x', '\x1b', '\x1b[', '\x1b[7', '\x1b[7m', '▀\x1b[', ' \n\n '):
+            for f in (read_ansi_terminal, read_compact_terminal):
+                try:
+                    f(t)
+                except Exception as ex:
+                    expect('b', False, '%s raised %r on %r' % (f.__name__, ex, t))
+    expect('b', runs > 3000, 'fuzz runs %d' % runs)
+
+
+# ----------------------------------------------------------------------------
+# (c) real segno output
+# ----------------------------------------------------------------------------
+
+DEVIATIONS = {}      # signature -> [example call, detail, count]
+SKIPPED = {}         # documented-unsupported option combinations: signature -> [example, count]
+
+# colour option sets: (keyword arguments, expected dark, expected light)
+COLOURS = [
+    ({}, B, W),
+    ({'dark': '#00f', 'light': None}, (0, 0, 255, 255), None),
+    ({'dark': (10, 20, 30), 'light': 'yellow'}, (10, 20, 30, 255), (255, 255, 0, 255)),
+    ({'dark': '#0000ffcc', 'light': 'white'}, (0, 0, 255, 0xcc), W),
+]
+
+# (kind, reader, binary stream, supports colours)   -- /repo/docs/serializers.rst and the
+# QRCode.save docstring: PBM, XBM, TXT and the terminal output are black / white only.
+RASTER_FORMATS = [
+    ('png', read_png, True, True),
+    ('ppm', read_ppm, True, True),
+    ('pam', read_pam, True, True),
+    ('xpm', read_xpm, False, True),
+    ('pbm', read_pbm, True, False),
+    ('xbm', read_xbm, False, False),
+]
+
+
+def documented_unsupported(kind, kw, ex):
+    """A clean ValueError for an option the documentation declares unsupported."""
+    if not isinstance(ex, ValueError):
+        return False
+    has_alpha = any(isinstance(v, str) and v.startswith('#') and len(v) in (5, 9) for v in kw.values())
+    transparent = 'light' in kw and kw['light'] is None
+    # docs: "PPM ... The serializer does not support transparency"; alpha values are accepted by
+    # "some serializers (i.e. SVG and PNG)" only; XPM knows None but no alpha channel.
+    if kind == 'ppm' and (transparent or has_alpha):
+        return True
+    if kind == 'xpm' and has_alpha:
+        return True
+    return False
+
+
+def record_deviation(sig, call, detail):
+    if sig in DEVIATIONS:
+        DEVIATIONS[sig][2] += 1
+    else:
+        DEVIATIONS[sig] = [call, detail, 1]
+
+
+def fmt_call(desc, meth, out, kw):
+    args = ', '.join('%s=%r' % item for item in kw.items())
+    return '%s.%s(%s, %s)' % (desc, meth, out, args)
+
+
+def test_segno():
+    import segno
+    symbols = [
+        ("segno.make('Hello')", segno.make('Hello')),
+        ("segno.make_micro('12')", segno.make_micro('12')),
+        ("segno.make('Version seven', version=7)", segno.make('Version seven', version=7)),
+    ]
+    expect('c', symbols[2][1].version == 7, 'version 7 symbol is %r' % (symbols[2][1].version,))
+    for desc, qr in symbols:
+        matrix = [[int(v) for v in row] for row in qr.matrix]
+        expect('c', all(v in (0, 1) for row in matrix for v in row) and len(matrix) == len(matrix[0]),
+               '%s: matrix is not a square of 0/1' % desc)
+        for scale in (1, 3, 8):
+            for border in (0, 1, 4):
+                for kind, reader, binary, coloured in RASTER_FORMATS:
+                    variants = [{}]
+                    if kind == 'pbm':
+                        variants = [{}, {'plain': True}]
+                    if kind == 'xbm':
+                        variants = [{}, {'name': 'qr_code'}]
+                    for ckw, dark, light in (COLOURS if coloured else COLOURS[:1]):
+                        for extra in variants:
+                            kw = dict(kind=kind, scale=scale, border=border)
+                            kw.update(ckw)
+                            kw.update(extra)
+                            out = io.BytesIO() if binary else io.StringIO()
+                            call = fmt_call(desc, 'save', 'io.BytesIO()' if binary else 'io.StringIO()', kw)
+                            sig = (kind, repr(sorted(ckw.items(), key=repr)), repr(sorted(extra.items())))
+                            try:
+                                qr.save(out, **kw)
+                            except Exception as ex:
+                                if documented_unsupported(kind, ckw, ex):
+                                    COUNTS['c_skipped'] += 1
+                                    SKIPPED.setdefault(sig, [call, '%s: %s' % (type(ex).__name__, ex), 0])[2] += 1
+                                else:
+                                    record_deviation(sig + ('raise',), call,
+                                                     'raises %s: %s' % (type(ex).__name__, ex))
+                                continue
+                            try:
+                                raster = reader(out.getvalue())
+                                problems = check_modules(matrix, raster, scale, border, dark, light)
+                            except Exception as ex:      # reader bug: a real failure
+                                expect('c', False, '%s: reader raised %r' % (call, ex))
+                                continue
+                            COUNTS['c'] += 1
+                            if problems:
+                                record_deviation(sig + ('output',), call, '; '.join(problems[:3]))
+                            if kind == 'xbm' and not problems:
+                                expect('c', raster.info.get('name') == extra.get('name', 'img'),
+                                       '%s: XBM name %r' % (call, raster.info.get('name')))
+        # PNG dpi (pHYs): not a pixel property, but required by the reader contract (info['dpi'])
+        for dpi in (72, 300, 600):
+            out = io.BytesIO()
+            kw = dict(kind='png', scale=2, border=1, dpi=dpi)
+            qr.save(out, **kw)
+            raster = read_png(out.getvalue())
+            problems = check_modules(matrix, raster, 2, 1, B, W)
+            got = raster.info.get('dpi')
+            COUNTS['c'] += 1
+            if problems or got is None or abs(got[0] - dpi) > 0.02 or got[0] != got[1]:
+                record_deviation(('png', 'dpi', dpi), fmt_call(desc, 'save', 'io.BytesIO()', kw),
+                                 'dpi read back %r; %r' % (got, problems[:2]))
+        # text formats: no scale
+        for border in (0, 1, 4):
+            cases = [
+                ('txt', lambda o, b=border: qr.save(o, kind='txt', border=b), read_txt,
+                 "%s.save(io.StringIO(), kind='txt', border=%d)" % (desc, border)),
+                ('ans', lambda o, b=border: qr.save(o, kind='ans', border=b), read_ansi_terminal,
+                 "%s.save(io.StringIO(), kind='ans', border=%d)" % (desc, border)),
+                ('terminal', lambda o, b=border: qr.terminal(out=o, border=b), read_ansi_terminal,
+                 "%s.terminal(out=io.StringIO(), border=%d)" % (desc, border)),
+                ('compact', lambda o, b=border: qr.terminal(out=o, border=b, compact=True), read_compact_terminal,
+                 "%s.terminal(out=io.StringIO(), border=%d, compact=True)" % (desc, border)),
+            ]
+            for name, write, reader, call in cases:
+                out = io.StringIO()
+                try:
+                    write(out)
+                except Exception as ex:
+                    record_deviation((name, 'raise'), call, 'raises %s: %s' % (type(ex).__name__, ex))
+                    continue
+                try:
+                    problems = check_grid(matrix, reader(out.getvalue()), border)
+                except ValueError as ex:
+                    problems = ['not a 0/1 grid: %s' % ex]
+                except Exception as ex:
+                    expect('c', False, '%s: reader raised %r' % (call, ex))
+                    continue
+                COUNTS['c'] += 1
+                if problems:
+                    record_deviation((name, 'output'), call, '; '.join(problems[:3]))
+    # default border (None): 4 for QR, 2 for Micro QR (documented) - one probe per format
+    for desc, qr in symbols:
+        matrix = [[int(v) for v in row] for row in qr.matrix]
+        b = 2 if qr.is_micro else 4
+        for kind, reader, binary, coloured in RASTER_FORMATS:
+            out = io.BytesIO() if binary else io.StringIO()
+            qr.save(out, kind=kind, scale=2)
+            problems = check_modules(matrix, reader(out.getvalue()), 2, b, B, W)
+            COUNTS['c'] += 1
+            if problems:
+                record_deviation((kind, 'default border'), "%s.save(..., kind=%r, scale=2)" % (desc, kind),
+                                 '; '.join(problems[:3]))
+
+
+def main():
+    for section, tests in (('a', (test_png_good, test_netpbm_good, test_c_formats_good, test_text_good)),
+                           ('b', (test_png_bad, test_other_bad, test_fuzz_never_raises)),
+                           ('c', (test_segno,))):
+        for t in tests:
+            try:
+                t()
+            except Exception:
+                import traceback
+                fail(section, '%s crashed:\n%s' % (t.__name__, traceback.format_exc()))
+    print('python %s' % sys.version.split()[0])
+    print('(a) hand-built files       : %d checks' % COUNTS['a'])
+    print('(b) corrupted files / fuzz : %d checks' % COUNTS['b'])
+    print('(c) segno round trips      : %d files read and checked, %d option combinations skipped '
+          '(documented as unsupported, clean ValueError)' % (COUNTS['c'], COUNTS['c_skipped']))
+    if SKIPPED:
+        print()
+        print('SKIPPED (documented: format does not support the option)')
+        for sig, (call, detail, count) in sorted(SKIPPED.items()):
+            print('  - %s\n      -> %s   [%d cases]' % (call, detail, count))
+    print()
+    print('LIBRARY DEVIATIONS')
+    if not DEVIATIONS:
+        print('  none')
+    for sig, (call, detail, count) in sorted(DEVIATIONS.items(), key=repr):
+        print('  - %s\n      -> %s   [%d cases with this format / option set; first one shown]' % (call, detail, count))
+    print()
+    if FAILURES:
+        print('FAILED: %d' % len(FAILURES))
+        for f in FAILURES[:40]:
+            print('  ' + f)
+        return 1
+    print('PASS')
+    return 0
+
+
+if __name__ == '__main__':
+    sys.exit(main())
